@@ -83,9 +83,10 @@ Fixpoint msg_sizes_ok (S : schema) (tid : nat) (v : value) {struct v} : bool :=
        type does not accept as known (number not declared, or declared with a wire type the field
        rejects), with minimal tags on the table-driven path ([slow] = false) -- checked by
        running the wire scanner, see [msg_unknown_ok].
-   Restrictions of the proved theorem (named in Props/C03.v): [grp_unknown] -- a group-typed
-   value must have empty unknown bytes on the table-driven path; on the reflection path
-   ([slow] = true) group-typed fields are excluded. *)
+   On the reflection path ([slow] = true) a group-typed value must in addition pass the wire
+   scanner ([msg_group_scans]: protowire.ConsumeGroup reads the whole group, with a nesting
+   budget of 10000 that it shares with unknown groups nested inside, before the content is
+   decoded); on the table-driven path groups are decoded directly and need no such condition. *)
 
 Definition msg_bytes_eqb (a b : list byte) : bool :=
   match msg_bytes_cmp a b with Eq => true | _ => false end.
@@ -171,8 +172,17 @@ Definition msg_oneofs_ok (md : mdesc) (fs : fields) : bool :=
         end) md
     end) fs.
 
+(* the wire scanner accepts a group body followed by its end tag (what protowire.ConsumeGroup
+   must do before the reflection path decodes the content) *)
+Definition msg_group_scans (num : N) (body : list byte) : bool :=
+  match parse_val default_dep num 3 (body ++ enc_tag num 4) with
+  | Ok (_, []) => true
+  | _ => false
+  end.
+
 Section FieldTyped.
   Variable slow : bool.
+  Variable eb : nat -> value -> list byte. (* the encoder of sub-message bodies *)
   Variable tv : nat -> value -> bool.      (* sub-messages, one level down *)
   Variable tv2 : nat -> value -> bool.     (* values of map entries, two levels down *)
   Variable has2 : bool.                    (* is there depth left for a map entry? *)
@@ -181,7 +191,7 @@ Section FieldTyped.
     match f_kind fd, v with
     | KS sk, VS s => sk_ok sk s && msg_str_valid sk (msg_field_utf8 slow fd) s
     | KMsg tid, VMsg _ _ => tv tid v
-    | KGrp tid, VMsg _ unk => negb slow && tv tid v && match unk with [] => true | _ => false end
+    | KGrp tid, VMsg _ _ => tv tid v && (negb slow || msg_group_scans (f_num fd) (eb tid v))
     | _, _ => false
     end.
 
@@ -233,7 +243,7 @@ Fixpoint msg_typed (slow : bool) (S : schema) (dep : nat) (tid : nat) (v : value
         let has2 := match d with O => false | _ => true end in
         let tv2 := fun t x => match d with O => false | Datatypes.S d1 => msg_typed slow S d1 t x end in
         msg_keys_sorted 0 fs
-        && forallb (fun p => msg_typed_chunk slow (msg_typed slow S d) tv2 has2 md p) fs
+        && forallb (fun p => msg_typed_chunk slow (msg_enc_body S) (msg_typed slow S d) tv2 has2 md p) fs
         && msg_oneofs_ok md fs
         && msg_unknown_ok slow md has2 (x00 :: unk) unk
       end
